@@ -130,7 +130,10 @@ pub fn gen_num(t: &mut Tape, nonzero: bool, positive: bool) -> Num {
             let int = p / den;
             let frac = (p % den).abs();
             let sign = if p < 0 && int == 0 { "-" } else { "" };
-            (format!("{sign}{int}.{:0width$}", frac, width = d as usize), qfrac(p, den), false)
+            // the value a reader holds is the double nearest to the decimal text
+            let text = format!("{sign}{int}.{:0width$}", frac, width = d as usize);
+            let v = q(text.parse::<f64>().unwrap());
+            (text, v, false)
         }
     };
     let mut text = text;
@@ -182,9 +185,10 @@ pub fn gen_lp(t: &mut Tape, ctx: &mut Ctx) -> Lp {
         ctx.label(format!("row={kind}"));
         let rhs = if t.p(170) { Some(gen_num(t, false, false)) } else { None };
         let range = if t.p(70) {
-            // dyadic only: b +- |r| must be exact
+            // (with decimal numbers the computed end b +- |r| is subject to one rounding; the row's own side is not)
+            let keep_decimals = t.p(110);
             let mut n = gen_num(t, true, false);
-            if !n.dyadic {
+            if !n.dyadic && !keep_decimals {
                 n = Num { text: "-2.5".into(), value: qfrac(-5, 2), dyadic: true };
             }
             ctx.label(format!("range{}@{}", if n.value > qi(0) { "+" } else { "-" }, kind));
@@ -193,9 +197,12 @@ pub fn gen_lp(t: &mut Tape, ctx: &mut Ctx) -> Lp {
             None
         };
         let rhs = match (&range, rhs) {
-            (Some(_), Some(r)) if !r.dyadic => Some(Num { text: "1.5".into(), value: qfrac(3, 2), dyadic: true }),
+            (Some(rg), Some(r)) if !r.dyadic && rg.dyadic && t.coin() => Some(Num { text: "1.5".into(), value: qfrac(3, 2), dyadic: true }),
             (_, r) => r,
         };
+        if range.is_some() && (range.as_ref().map(|n| !n.dyadic).unwrap_or(false) || rhs.as_ref().map(|n| !n.dyadic).unwrap_or(false)) {
+            ctx.label("ranged-row-with-decimal-numbers");
+        }
         // a row may be named like the twin the reader generates for a ranged row ("<row>_")
         let name = if i > 0 && t.p(40) {
             ctx.label("row-named-like-range-twin");
@@ -599,8 +606,9 @@ pub fn expected_domain(c: &Col) -> Domain {
     Domain { integral: c.integer || force_int, lo, hi }
 }
 
-/// expected constraints: (is_equality, polynomial over column indices (as ids), source row name)
-pub fn expected_constraints(lp: &Lp) -> Vec<(bool, Poly, String)> {
+/// expected constraints: (is_equality, polynomial over column indices (as ids), source row name, constant is the
+/// result of one floating-point addition of two file numbers that are not both dyadic)
+pub fn expected_constraints(lp: &Lp) -> Vec<(bool, Poly, String, bool)> {
     let mut out = vec![];
     for (ri, r) in lp.rows.iter().enumerate() {
         let mut ax = Poly::zero();
@@ -615,9 +623,9 @@ pub fn expected_constraints(lp: &Lp) -> Vec<(bool, Poly, String)> {
         let le = |hi: &Q| ax.sub(&Poly::constant(hi.clone())); // a.x - hi <= 0
         let ge = |lo: &Q| Poly::constant(lo.clone()).sub(&ax); // lo - a.x <= 0
         match (&r.range, r.kind) {
-            (None, 'E') => out.push((true, le(&b), r.name.clone())),
-            (None, 'L') => out.push((false, le(&b), r.name.clone())),
-            (None, 'G') => out.push((false, ge(&b), r.name.clone())),
+            (None, 'E') => out.push((true, le(&b), r.name.clone(), false)),
+            (None, 'L') => out.push((false, le(&b), r.name.clone(), false)),
+            (None, 'G') => out.push((false, ge(&b), r.name.clone(), false)),
             (Some(rg), k) => {
                 use num::Signed;
                 let ar = rg.value.abs();
@@ -632,8 +640,9 @@ pub fn expected_constraints(lp: &Lp) -> Vec<(bool, Poly, String)> {
                         }
                     }
                 };
-                out.push((false, le(&hi), r.name.clone()));
-                out.push((false, ge(&lo), r.name.clone()));
+                let inexact = !rg.dyadic || r.rhs.as_ref().map(|n| !n.dyadic).unwrap_or(false);
+                out.push((false, le(&hi), r.name.clone(), inexact && hi != b));
+                out.push((false, ge(&lo), r.name.clone(), inexact && lo != b));
             }
             _ => unreachable!(),
         }
